@@ -587,9 +587,21 @@ static int run_case(void)
     if(!strcmp(o, "F")) {
       char before[2048]; snap_grid(before, sizeof before);
       xlen = 0; xlog[0] = 0;
+      /* the state right before the flush: tree, pending damage */
+      SEP(); printf("F U="); print_tree(root);
+      {
+        TickitRootWindow *rw = WINDOW_AS_ROOT(root);
+        size_t nd = tickit_rectset_rects(rw->damage);
+        printf(" P=");
+        if(!nd) printf("-");
+        for(size_t k = 0; k < nd; k++) {
+          TickitRect dr; tickit_rectset_get_rect(rw->damage, k, &dr);
+          printf("%s%d,%d,%d,%d", k ? ";" : "", dr.top, dr.left, dr.lines, dr.cols);
+        }
+      }
       tickit_window_flush(root);
       char after[2048]; snap_grid(after, sizeof after);
-      SEP(); printf("F T="); print_tree(root);
+      printf(" T="); print_tree(root);
       printf(" B=%s G=%s X=%s", before, after, xlen ? xlog : "-");
       print_cursor();
       printf(" A=");
